@@ -377,6 +377,36 @@ func shapesHarness(skeleton string, argNames []string) {
 			vrt.AssertMsg("converted-by-its-converter", ok && (line.kind == "nomatch" || strings.Contains(line.rhs, src)), d+" = "+line.rhs+" ("+line.kind+")")
 		}
 	}
+	// :literal / :conv / :map address their destination path case-SENSITIVELY whatever the case rule
+	// says (README: "Other notations like :map and :conv retain case-sensitive matches"): a value
+	// that only a notation can supply appears on exactly the path the notation names
+	for _, nt := range nots {
+		for _, l := range lines {
+			if l.kind != "assign" {
+				continue
+			}
+			switch nt.kind {
+			case ":literal":
+				if l.rhs == strings.Join(nt.args[1:], " ") {
+					vrt.AssertMsg("literal-only-on-the-path-it-names", l.path == nt.args[0], l.path+" = "+l.rhs+" by :literal "+nt.args[0])
+				}
+			case ":conv":
+				d := nt.args[1]
+				if len(nt.args) > 2 {
+					d = nt.args[2]
+				}
+				if strings.HasPrefix(l.rhs, nt.args[0]+"(") {
+					vrt.AssertMsg("converter-only-on-the-path-it-names", l.path == d, l.path+" = "+l.rhs+" by :conv "+strings.Join(nt.args, " "))
+				}
+			case ":map":
+				// (only for a source no destination field is named after, so that the default
+				// name match cannot have produced the same line)
+				if nt.args[0] == "Extra" && l.rhs == "src.Extra" {
+					vrt.AssertMsg("mapped-source-only-on-the-path-it-names", l.path == nt.args[1], l.path+" = "+l.rhs+" by :map "+strings.Join(nt.args, " "))
+				}
+			}
+		}
+	}
 	text := generator.NewGenerator(gmodel.Code{}).FuncToString(fn)
 	vrt.Observe("func", text)
 	v := vrt.TypeCheckFuncs(skeleton, text)
